@@ -1929,4 +1929,60 @@ theorem ext_all : ∀ f, ExtAt f := by
         | pat a => exact other _ ts (by intro he; cases he) (by intro he; cases he) (by intro _ he; cases he) h
         | lam a => exact other _ ts (by intro he; cases he) (by intro he; cases he) (by intro _ he; cases he) h
 
+/-! ## The tuple size limit is preserved by regrouping -/
+
+theorem len_rgArgs : (es : Args) → (rgArgs es).len = es.len
+  | .one e => by simp [rgArgs, Args.len]
+  | .cons e rest => by simp [rgArgs, Args.len, len_rgArgs rest]
+
+theorem sizeOk_wrap (ctx : Option (BinOp × Expr)) (x : Expr) :
+    sizeOk (wrapCtx ctx x) = (match ctx with | none => sizeOk x | some (_, acc) => sizeOk acc && sizeOk x) := by
+  cases ctx with
+  | none => rfl
+  | some p => obtain ⟨o, acc⟩ := p; simp [wrapCtx, sizeOk]
+
+mutual
+theorem sizeOk_rg : (e : Expr) → sizeOk (rg none e) = sizeOk e ∧
+    ∀ o acc, sizeOk (rg (some (o, acc)) e) = (sizeOk acc && sizeOk e)
+  | .atom a => by simp [rg, sizeOk_wrap, sizeOk]
+  | .tuple e es => by
+    simp [rg, sizeOk_wrap, sizeOk, (sizeOk_rg e).1, sizeOkArgs_rg es, len_rgArgs]
+  | .block b => by simp [rg, sizeOk_wrap, sizeOk, sizeOkBlk_rg b]
+  | .post e p f => by simp [rg, sizeOk_wrap, sizeOk, (sizeOk_rg e).1]
+  | .call0 f => by simp [rg, sizeOk_wrap, sizeOk, (sizeOk_rg f).1]
+  | .call f args => by simp [rg, sizeOk_wrap, sizeOk, (sizeOk_rg f).1, sizeOkArgs_rg args]
+  | .unary u e => by simp [rg, sizeOk_wrap, sizeOk, (sizeOk_rg e).1]
+  | .ifElse c t e => by simp [rg, sizeOk_wrap, sizeOk, (sizeOk_rg c).1, sizeOkBlk_rg t, sizeOkBlk_rg e]
+  | .matchE m cs => by simp [rg, sizeOk_wrap, sizeOk, (sizeOk_rg m).1, sizeOkCases_rg cs]
+  | .lambda k b => by simp [rg, sizeOk_wrap, sizeOk, (sizeOk_rg b).1]
+  | .binary o' a b => by
+    have iha := (sizeOk_rg a).1
+    have ihb := sizeOk_rg b
+    constructor
+    · simp only [rg]
+      by_cases h : usesShortcut o' a b = true
+      · simp only [h, if_true]; rw [ihb.2, iha]; simp [sizeOk]
+      · simp only [h]; simp [sizeOk, iha, ihb.1]
+    · intro o acc
+      simp only [rg]
+      by_cases h : usesShortcut o a b = true
+      · simp only [h, if_true]; rw [ihb.2]; simp [sizeOk, iha, Bool.and_assoc]
+      · simp only [h]; simp [sizeOk, iha, ihb.1, Bool.and_assoc]
+theorem sizeOkArgs_rg : (es : Args) → sizeOkArgs (rgArgs es) = sizeOkArgs es
+  | .one e => by simp [rgArgs, sizeOkArgs, (sizeOk_rg e).1]
+  | .cons e rest => by simp [rgArgs, sizeOkArgs, (sizeOk_rg e).1, sizeOkArgs_rg rest]
+theorem sizeOkCases_rg : (cs : Cases) → sizeOkCases (rgCases cs) = sizeOkCases cs
+  | .one k b => by simp [rgCases, sizeOkCases, (sizeOk_rg b).1]
+  | .cons k b rest => by simp [rgCases, sizeOkCases, (sizeOk_rg b).1, sizeOkCases_rg rest]
+theorem sizeOkBlk_rg : (b : Blk) → sizeOkBlk (rgBlk b) = sizeOkBlk b
+  | .fin ss e => by simp [rgBlk, sizeOkBlk, (sizeOk_rg e).1, sizeOkStmts_rg ss]
+  | .noFin ss => by simp [rgBlk, sizeOkBlk, sizeOkStmts_rg ss]
+theorem sizeOkStmts_rg : (ss : Stmts) → sizeOkStmts (rgStmts ss) = sizeOkStmts ss
+  | .nil => by simp [rgStmts]
+  | .letS k e rest => by simp [rgStmts, sizeOkStmts, (sizeOk_rg e).1, sizeOkStmts_rg rest]
+  | .exprS e rest => by simp [rgStmts, sizeOkStmts, (sizeOk_rg e).1, sizeOkStmts_rg rest]
+end
+
+theorem sizeOk_regroup (e : Expr) : sizeOk (regroup e) = sizeOk e := (sizeOk_rg e).1
+
 end SamVerif.FmtFull
